@@ -290,6 +290,42 @@ fn relabel_effects(t: &Ast, style: &str, next: &mut usize, cond: bool) -> Ast {
 pub struct Programs {
     trees: Vec<Ast>,
     chains: Vec<Ast>,
+    /// wide nodes: calls, lists, maps, chains and aggregated lists of 4..65 observable elements
+    wide: Vec<Ast>,
+}
+
+/// element i of a wide node: a context-function call that logs its distinct argument
+fn wide_leaf(i: usize) -> Ast {
+    Ast::Func("cf".into(), vec![Ast::Num(Decimal::from(i as i64))])
+}
+
+fn wide_programs() -> Vec<Ast> {
+    let mut sizes: Vec<usize> = (4..=12).collect();
+    sizes.extend([15, 16, 17, 31, 32, 33, 64, 65]);
+    let mut v = Vec::new();
+    for n in sizes {
+        let leaves: Vec<Ast> = (0..n).map(wide_leaf).collect();
+        v.push(Ast::Func("cf".into(), leaves.clone()));
+        v.push(Ast::Func("gf".into(), leaves.clone()));
+        v.push(Ast::Func("nofn".into(), leaves.clone()));
+        v.push(Ast::Func("max".into(), leaves.clone()));
+        v.push(Ast::List(leaves.clone()));
+        v.push(Ast::Stmt(leaves.clone()));
+        v.push(Ast::Map((0..n).map(|i| (wide_leaf(2 * i), wide_leaf(2 * i + 1))).collect()));
+        v.push(Ast::Binary("in".into(), Box::new(wide_leaf(1000)), Box::new(Ast::List(leaves.clone()))));
+        // a left-leaning operator chain over the logging infix operator
+        let mut chain = wide_leaf(0);
+        for i in 1..n {
+            chain = Ast::Binary("lop".into(), Box::new(chain), Box::new(wide_leaf(i)));
+        }
+        v.push(chain);
+        let mut sum = wide_leaf(0);
+        for i in 1..n {
+            sum = Ast::Binary("+".into(), Box::new(sum), Box::new(wide_leaf(i)));
+        }
+        v.push(sum);
+    }
+    v
 }
 
 fn reduced_kinds() -> Vec<Kind> {
@@ -328,15 +364,26 @@ impl Programs {
         for a in &by[1] {
             chains.push(Ast::Stmt(vec![by[0][0].clone(), a.clone(), by[0][0].clone(), by[0][0].clone()]));
         }
-        Programs { trees, chains }
+        Programs { trees, chains, wide: wide_programs() }
     }
     pub fn len(&self) -> u64 {
-        (self.trees.len() * STYLES.len() + 2 * self.chains.len()) as u64
+        (self.trees.len() * STYLES.len() + 2 * self.chains.len() + self.wide.len()) as u64
+    }
+    /// leaf style of program i (None for chains and wide programs)
+    pub fn style_of(&self, i: u64) -> Option<&'static str> {
+        if (i as usize) < self.trees.len() * STYLES.len() {
+            Some(STYLES[i as usize % STYLES.len()])
+        } else {
+            None
+        }
     }
     pub fn get(&self, i: u64) -> Ast {
         let i = i as usize;
         let n = self.trees.len() * STYLES.len();
         let mut next = 0;
+        if i >= n + 2 * self.chains.len() {
+            return self.wide[i - n - 2 * self.chains.len()].clone();
+        }
         if i < n {
             relabel_effects(&self.trees[i / STYLES.len()], STYLES[i % STYLES.len()], &mut next, false)
         } else {
